@@ -2,7 +2,443 @@
 Proofs/Token — helper lemmas for C01, C09, C16, C17, C20 (signed envelope).
 -/
 import BiscuitModel.Model.Token
+import BiscuitModel.Proofs.WireEnvelope
 
 namespace Biscuit
+open Wire
+
+/-! ### `le32` and the signed payloads -/
+
+theorem le32_length (n : Nat) : (le32 n).length = 4 := rfl
+
+theorem UInt8.ofNat_inj_of_lt {a b : Nat} (ha : a < 256) (hb : b < 256)
+    (h : UInt8.ofNat a = UInt8.ofNat b) : a = b := by
+  have := congrArg UInt8.toNat h
+  rw [UInt8.toNat_ofNat', UInt8.toNat_ofNat'] at this
+  omega
+
+theorem le32_inj (a b : Nat) (ha : a < 2^32) (hb : b < 2^32) (h : le32 a = le32 b) : a = b := by
+  simp only [le32, List.cons.injEq, and_true] at h
+  obtain ⟨h0, h1, h2, h3⟩ := h
+  have e0 := UInt8.ofNat_inj_of_lt (by omega) (by omega) h0
+  have e1 := UInt8.ofNat_inj_of_lt (by omega) (by omega) h1
+  have e2 := UInt8.ofNat_inj_of_lt (by omega) (by omega) h2
+  have e3 := UInt8.ofNat_inj_of_lt (by omega) (by omega) h3
+  omega
+
+theorem blockPayload_inj (a b : SignedBlockMsg)
+    (hlen : a.nextKey.key.length = b.nextKey.key.length)
+    (hA : a.nextKey.algorithm < 2^32) (hB : b.nextKey.algorithm < 2^32)
+    (h : blockPayload a = blockPayload b) :
+    a.block = b.block ∧ a.nextKey.algorithm = b.nextKey.algorithm ∧ a.nextKey.key = b.nextKey.key := by
+  unfold blockPayload at h
+  obtain ⟨h1, hk⟩ := List.append_inj' h hlen
+  obtain ⟨hb, hl⟩ := List.append_inj' h1 (by simp [le32_length])
+  exact ⟨hb, le32_inj _ _ hA hB hl, hk⟩
+
+theorem sealPayload_inj (a b : SignedBlockMsg)
+    (hlen : a.nextKey.key.length = b.nextKey.key.length)
+    (hA : a.nextKey.algorithm < 2^32) (hB : b.nextKey.algorithm < 2^32)
+    (hs : a.signature.length = b.signature.length)
+    (h : sealPayload a = sealPayload b) :
+    a.block = b.block ∧ a.nextKey.algorithm = b.nextKey.algorithm ∧ a.nextKey.key = b.nextKey.key ∧
+    a.signature = b.signature := by
+  unfold sealPayload at h
+  obtain ⟨h1, hsig⟩ := List.append_inj' h hs
+  obtain ⟨x, y, z⟩ := blockPayload_inj a b hlen hA hB h1
+  exact ⟨x, y, z, hsig⟩
+
+/-! ### The chain walk, declaratively -/
+
+/-- Every link is signed by the key announced by its predecessor (the first by `k`). -/
+def LinksGood (S : SigScheme) : Bytes → List SignedBlockMsg → Prop
+  | _, [] => True
+  | k, sb :: rest =>
+    sb.nextKey.algorithm = ed25519Alg ∧ S.verify k (blockPayload sb) sb.signature = true ∧
+    sb.nextKey.key.length = 32 ∧ LinksGood S sb.nextKey.key rest
+
+/-- The key current after walking `l` from `k`. -/
+def finalKey (k : Bytes) (l : List SignedBlockMsg) : Bytes := (l.getLast?.map (·.nextKey.key)).getD k
+
+theorem finalKey_nil (k : Bytes) : finalKey k [] = k := rfl
+
+theorem finalKey_cons (k : Bytes) (sb : SignedBlockMsg) (rest : List SignedBlockMsg) :
+    finalKey k (sb :: rest) = finalKey sb.nextKey.key rest := by
+  simp only [finalKey, List.getLast?_cons]
+  cases rest.getLast? <;> rfl
+
+theorem finalKey_append_singleton (k : Bytes) (l : List SignedBlockMsg) (sb : SignedBlockMsg) :
+    finalKey k (l ++ [sb]) = sb.nextKey.key := by
+  simp [finalKey]
+
+theorem finalKey_envelope (root : Bytes) (e : BiscuitMsg) :
+    finalKey root (e.authority :: e.blocks) = (lastBlock e).nextKey.key := by
+  simp only [finalKey, lastBlock, List.getLast?_cons]
+  rfl
+
+theorem verifyLink_ok_iff (S : SigScheme) (k : Bytes) (sb : SignedBlockMsg) (next : Bytes) :
+    verifyLink S k sb = .ok next ↔
+      sb.nextKey.algorithm = ed25519Alg ∧ S.verify k (blockPayload sb) sb.signature = true ∧
+      sb.nextKey.key.length = 32 ∧ next = sb.nextKey.key := by
+  unfold verifyLink
+  by_cases h1 : sb.nextKey.algorithm = ed25519Alg <;>
+  by_cases h2 : S.verify k (blockPayload sb) sb.signature = true <;>
+  by_cases h3 : sb.nextKey.key.length = 32 <;>
+    simp [h1, h2, h3, eq_comm]
+
+theorem verifyLinks_ok_iff (S : SigScheme) (k : Bytes) (l : List SignedBlockMsg) (cur : Bytes) :
+    verifyLinks S k l = .ok cur ↔ LinksGood S k l ∧ cur = finalKey k l := by
+  induction l generalizing k with
+  | nil => simp [verifyLinks, LinksGood, finalKey_nil, eq_comm]
+  | cons sb rest ih =>
+    simp only [verifyLinks, LinksGood, finalKey_cons]
+    cases hl : verifyLink S k sb with
+    | error r =>
+      simp only [reduceCtorEq, false_iff]
+      intro ⟨⟨a, b, c, _⟩, _⟩
+      have := (verifyLink_ok_iff S k sb sb.nextKey.key).mpr ⟨a, b, c, rfl⟩
+      rw [hl] at this; cases this
+    | ok next =>
+      obtain ⟨a, b, c, rfl⟩ := (verifyLink_ok_iff S k sb next).mp hl
+      simp only [ih, a, b, c, true_and]
+
+theorem LinksGood_append_singleton (S : SigScheme) (k : Bytes) (l : List SignedBlockMsg) (sb : SignedBlockMsg) :
+    LinksGood S k (l ++ [sb]) ↔
+      LinksGood S k l ∧ sb.nextKey.algorithm = ed25519Alg ∧
+      S.verify (finalKey k l) (blockPayload sb) sb.signature = true ∧ sb.nextKey.key.length = 32 := by
+  induction l generalizing k with
+  | nil => simp [LinksGood, finalKey_nil]
+  | cons a rest ih =>
+    simp only [List.cons_append, LinksGood, finalKey_cons, ih]
+    constructor
+    · rintro ⟨h1, h2, h3, h4, h5⟩; exact ⟨⟨h1, h2, h3, h4⟩, h5⟩
+    · rintro ⟨⟨h1, h2, h3, h4⟩, h5⟩; exact ⟨h1, h2, h3, h4, h5⟩
+
+/-- The closing proof matches the key `cur`. -/
+def ProofGood (S : SigScheme) (cur : Bytes) (e : BiscuitMsg) : Prop :=
+  match e.proof with
+  | .nextSecret sk => sk.length = 32 ∧ S.pub sk = cur
+  | .finalSignature sig => S.verify cur (sealPayload (lastBlock e)) sig = true
+  | .empty => False
+
+theorem verifyProof_ok_iff (S : SigScheme) (cur : Bytes) (e : BiscuitMsg) :
+    verifyProof S cur e = .ok () ↔ ProofGood S cur e := by
+  unfold verifyProof ProofGood
+  cases e.proof with
+  | nextSecret sk =>
+    by_cases h1 : sk.length = 32 <;> by_cases h2 : S.pub sk = cur <;> simp [h1, h2]
+  | finalSignature sig =>
+    by_cases h : S.verify cur (sealPayload (lastBlock e)) sig = true <;> simp [h]
+  | empty => simp
+
+def ChainGood (S : SigScheme) (root : Bytes) (e : BiscuitMsg) : Prop :=
+  LinksGood S root (e.authority :: e.blocks) ∧ ProofGood S (lastBlock e).nextKey.key e
+
+theorem verifyChain_ok_iff (S : SigScheme) (root : Bytes) (e : BiscuitMsg) :
+    verifyChain S root e = .ok () ↔ ChainGood S root e := by
+  unfold verifyChain ChainGood
+  cases hl : verifyLinks S root (e.authority :: e.blocks) with
+  | error r =>
+    simp only [reduceCtorEq, false_iff]
+    intro ⟨hg, _⟩
+    have := (verifyLinks_ok_iff S root _ _).mpr ⟨hg, rfl⟩
+    rw [hl] at this; cases this
+  | ok cur =>
+    obtain ⟨hg, rfl⟩ := (verifyLinks_ok_iff S root _ _).mp hl
+    simp only [verifyProof_ok_iff, finalKey_envelope, hg, true_and]
+
+theorem verifyChain_ok_or_error (S : SigScheme) (root : Bytes) (e : BiscuitMsg) :
+    verifyChain S root e = .ok () ∨ ∃ r, verifyChain S root e = .error r := by
+  cases h : verifyChain S root e with
+  | ok u => exact Or.inl rfl
+  | error r => exact Or.inr ⟨r, rfl⟩
+
+/-- Each link of a chain, with the key it must verify under. -/
+theorem LinksGood_zip (S : SigScheme) (k : Bytes) (l : List SignedBlockMsg) (h : LinksGood S k l) :
+    ∀ ks ∈ (k :: l.map (·.nextKey.key)).zip l, S.verify ks.1 (blockPayload ks.2) ks.2.signature = true := by
+  induction l generalizing k with
+  | nil => intro ks hks; simp at hks
+  | cons sb rest ih =>
+    obtain ⟨_, hv, _, hr⟩ := h
+    intro ks hks
+    simp only [List.map_cons, List.zip_cons_cons, List.mem_cons] at hks
+    rcases hks with rfl | hks
+    · exact hv
+    · exact ih _ hr ks hks
+
+/-! ### Size gates -/
+
+theorem sizeGate_ok_iff (sb : SignedBlockMsg) :
+    sizeGate sb = .ok () ↔ sb.nextKey.key.length = 32 ∧ sb.signature.length = 64 := by
+  unfold sizeGate
+  by_cases h1 : sb.nextKey.key.length = 32 <;> by_cases h2 : sb.signature.length = 64 <;> simp [h1, h2]
+
+theorem forM_sizeGate_ok_iff (l : List SignedBlockMsg) :
+    forM l sizeGate = .ok () ↔ ∀ sb ∈ l, sb.nextKey.key.length = 32 ∧ sb.signature.length = 64 := by
+  induction l with
+  | nil => simp [pure, Except.pure]
+  | cons sb rest ih =>
+    rw [List.forM_cons]
+    cases h : sizeGate sb with
+    | error r =>
+      have : ¬ (sb.nextKey.key.length = 32 ∧ sb.signature.length = 64) := by
+        rw [← sizeGate_ok_iff, h]; simp
+      simp [bind, Except.bind, this]
+    | ok u =>
+      have := (sizeGate_ok_iff sb).mp h
+      simp [bind, Except.bind, ih, this]
+
+theorem sizeGates_ok_iff (e : BiscuitMsg) :
+    sizeGates e = .ok () ↔
+      ∀ sb ∈ e.authority :: e.blocks, sb.nextKey.key.length = 32 ∧ sb.signature.length = 64 := by
+  unfold sizeGates
+  cases h : sizeGate e.authority with
+  | error r =>
+    have : ¬ (e.authority.nextKey.key.length = 32 ∧ e.authority.signature.length = 64) := by
+      rw [← sizeGate_ok_iff, h]; simp
+    simp [bind, Except.bind, this]
+  | ok u =>
+    have := (sizeGate_ok_iff e.authority).mp h
+    simp [bind, Except.bind, forM_sizeGate_ok_iff, this]
+
+
+/-! ### Random source -/
+
+theorem readFull_length (need : Nat) (rng : Rng) (acc bs : Bytes) (rng' : Rng)
+    (h : readFull need rng acc = some (bs, rng')) : bs.length = acc.length + need := by
+  induction rng generalizing need acc with
+  | nil =>
+    cases need with
+    | zero => simp [readFull] at h; simp [h.1]
+    | succ n => simp [readFull] at h
+  | cons step rest ih =>
+    cases need with
+    | zero => simp [readFull] at h; simp [h.1]
+    | succ n =>
+      cases step with
+      | fail => simp [readFull] at h
+      | chunk b =>
+        simp only [readFull] at h
+        by_cases hb : b.length ≥ n + 1
+        · rw [if_pos hb] at h
+          simp only [Option.some.injEq, Prod.mk.injEq] at h
+          rw [← h.1, List.length_append, List.length_take]; omega
+        · rw [if_neg hb] at h
+          have := ih _ _ h
+          rw [this, List.length_append]; omega
+      | chunkErr b =>
+        simp only [readFull] at h
+        by_cases hb : b.length ≥ n + 1
+        · rw [if_pos hb] at h
+          simp only [Option.some.injEq, Prod.mk.injEq] at h
+          rw [← h.1, List.length_append, List.length_take]; omega
+        · rw [if_neg hb] at h; cases h
+
+theorem drawSeed_length (rng : Rng) (seed : Bytes) (rng' : Rng) (h : drawSeed rng = some (seed, rng')) :
+    seed.length = 32 := by
+  have := readFull_length 32 rng [] seed rng' h
+  simpa using this
+
+/-! ### Building, attenuating, sealing: what comes out -/
+
+theorem buildEnvelope_ok (S : SigScheme) (rootSeed : Bytes) (id : Option Nat) (block : Bytes) (rng rng' : Rng)
+    (e : BiscuitMsg) (h : buildEnvelope S rootSeed id block rng = .ok (e, rng')) :
+    ∃ seed, drawSeed rng = some (seed, rng') ∧
+      e = { rootKeyId := id,
+            authority := { block := block, nextKey := { algorithm := ed25519Alg, key := S.pub seed },
+                           signature := S.sign rootSeed (block ++ le32 ed25519Alg ++ S.pub seed) },
+            blocks := [], proof := .nextSecret seed } := by
+  unfold buildEnvelope at h
+  cases hd : drawSeed rng with
+  | none => rw [hd] at h; cases h
+  | some p =>
+    obtain ⟨seed, r⟩ := p
+    rw [hd] at h
+    simp only [Except.ok.injEq, Prod.mk.injEq] at h
+    obtain ⟨rfl, rfl⟩ := h
+    exact ⟨seed, rfl, rfl⟩
+
+theorem appendEnvelopeWith_ok (keep : Bool) (S : SigScheme) (e : BiscuitMsg) (block : Bytes) (rng rng' : Rng)
+    (e' : BiscuitMsg) (h : appendEnvelopeWith keep S e block rng = .ok (e', rng')) :
+    ∃ sk seed, e.proof = .nextSecret sk ∧ sk.length = 32 ∧ drawSeed rng = some (seed, rng') ∧
+      e' = { rootKeyId := if keep then e.rootKeyId else none, authority := e.authority,
+             blocks := e.blocks ++ [{ block := block, nextKey := { algorithm := ed25519Alg, key := S.pub seed },
+                                      signature := S.sign sk (block ++ le32 ed25519Alg ++ S.pub seed) }],
+             proof := .nextSecret seed } := by
+  unfold appendEnvelopeWith at h
+  cases hp : e.proof with
+  | nextSecret sk =>
+    rw [hp] at h
+    simp only at h
+    by_cases hl : sk.length = 32
+    · rw [if_neg (by simpa using hl)] at h
+      cases hd : drawSeed rng with
+      | none => rw [hd] at h; cases h
+      | some p =>
+        obtain ⟨seed, r⟩ := p
+        rw [hd] at h
+        simp only [Except.ok.injEq, Prod.mk.injEq] at h
+        obtain ⟨rfl, rfl⟩ := h
+        exact ⟨sk, seed, rfl, hl, rfl, rfl⟩
+    · rw [if_pos (by simpa using hl)] at h; cases h
+  | finalSignature sig => rw [hp] at h; cases h
+  | empty => rw [hp] at h; cases h
+
+theorem sealEnvelopeWith_ok (keep : Bool) (S : SigScheme) (e e' : BiscuitMsg)
+    (h : sealEnvelopeWith keep S e = .ok e') :
+    ∃ sk, e.proof = .nextSecret sk ∧ sk.length = 32 ∧
+      e' = { rootKeyId := if keep then e.rootKeyId else none, authority := e.authority,
+             blocks := e.blocks, proof := .finalSignature (S.sign sk (sealPayload (lastBlock e))) } := by
+  unfold sealEnvelopeWith at h
+  cases hp : e.proof with
+  | nextSecret sk =>
+    rw [hp] at h
+    simp only at h
+    by_cases hl : sk.length = 32
+    · rw [if_neg (by simpa using hl)] at h
+      simp only [Except.ok.injEq] at h
+      exact ⟨sk, rfl, hl, h.symm⟩
+    · rw [if_pos (by simpa using hl)] at h; cases h
+  | finalSignature sig => rw [hp] at h; cases h
+  | empty => rw [hp] at h; cases h
+
+theorem lastBlock_append_singleton (id : Option Nat) (a : SignedBlockMsg) (bl : List SignedBlockMsg)
+    (sb : SignedBlockMsg) (p : ProofMsg) :
+    lastBlock { rootKeyId := id, authority := a, blocks := bl ++ [sb], proof := p } = sb := by
+  simp [lastBlock]
+
+/-! ### Library-built tokens verify -/
+
+section built
+variable (S : SigScheme)
+  (hver : ∀ sk m, S.verify (S.pub sk) m (S.sign sk m) = true)
+  (hpub : ∀ sk, (S.pub sk).length = 32)
+include hver hpub
+
+theorem build_chainGood (rootSeed : Bytes) (id : Option Nat) (block : Bytes) (rng rng' : Rng) (e : BiscuitMsg)
+    (h : buildEnvelope S rootSeed id block rng = .ok (e, rng')) : ChainGood S (S.pub rootSeed) e := by
+  obtain ⟨seed, hd, rfl⟩ := buildEnvelope_ok S rootSeed id block rng rng' e h
+  have hl := drawSeed_length rng seed rng' hd
+  refine ⟨⟨rfl, ?_, hpub seed, trivial⟩, ?_⟩
+  · exact hver rootSeed _
+  · exact ⟨hl, rfl⟩
+
+theorem append_chainGood (keep : Bool) (root : Bytes) (e e' : BiscuitMsg) (block : Bytes) (rng rng' : Rng)
+    (hg : ChainGood S root e) (h : appendEnvelopeWith keep S e block rng = .ok (e', rng')) :
+    ChainGood S root e' := by
+  obtain ⟨sk, seed, hp, hsk, hd, rfl⟩ := appendEnvelopeWith_ok keep S e block rng rng' e' h
+  have hl := drawSeed_length rng seed rng' hd
+  obtain ⟨hlinks, hproof⟩ := hg
+  unfold ProofGood at hproof
+  rw [hp] at hproof
+  obtain ⟨_, hpk⟩ := hproof
+  refine ⟨?_, ?_⟩
+  · show LinksGood S root (e.authority :: (e.blocks ++ [_]))
+    rw [← List.cons_append, LinksGood_append_singleton]
+    refine ⟨hlinks, rfl, ?_, hpub seed⟩
+    rw [finalKey_envelope, ← hpk]
+    exact hver sk _
+  · rw [lastBlock_append_singleton]
+    exact ⟨hl, rfl⟩
+
+omit hpub in
+theorem seal_chainGood (keep : Bool) (root : Bytes) (e e' : BiscuitMsg)
+    (hg : ChainGood S root e) (h : sealEnvelopeWith keep S e = .ok e') : ChainGood S root e' := by
+  obtain ⟨sk, hp, hsk, rfl⟩ := sealEnvelopeWith_ok keep S e e' h
+  obtain ⟨hlinks, hproof⟩ := hg
+  unfold ProofGood at hproof
+  rw [hp] at hproof
+  obtain ⟨_, hpk⟩ := hproof
+  refine ⟨hlinks, ?_⟩
+  show S.verify (lastBlock e).nextKey.key (sealPayload (lastBlock e)) _ = true
+  rw [← hpk]
+  exact hver sk _
+
+theorem derive_chainGood (keep : Bool) (root : Bytes) (e e' : BiscuitMsg) (op : DeriveOp) (hop : op ≠ .reload)
+    (hg : ChainGood S root e) (h : derive keep S e op = .ok e') : ChainGood S root e' := by
+  rcases op with ⟨block, rng⟩ | _ | _
+  · simp only [derive] at h
+    cases ha : appendEnvelopeWith keep S e block rng with
+    | error r => rw [ha] at h; cases h
+    | ok p =>
+      obtain ⟨e'', rng'⟩ := p
+      rw [ha] at h
+      simp only [Except.map, Except.ok.injEq] at h
+      subst h
+      exact append_chainGood S hver hpub keep root e e'' block rng rng' hg ha
+  · exact seal_chainGood S hver keep root e e' hg h
+  · exact absurd rfl hop
+
+theorem deriveAll_chainGood (keep : Bool) (root : Bytes) (e e' : BiscuitMsg) (ops : List DeriveOp)
+    (hops : ∀ op ∈ ops, op ≠ .reload)
+    (hg : ChainGood S root e) (h : deriveAll keep S e ops = .ok e') : ChainGood S root e' := by
+  induction ops generalizing e with
+  | nil => simp only [deriveAll, Except.ok.injEq] at h; subst h; exact hg
+  | cons op ops ih =>
+    simp only [deriveAll] at h
+    cases hd : derive keep S e op with
+    | error r => rw [hd] at h; cases h
+    | ok e1 =>
+      rw [hd] at h
+      exact ih e1 (fun o ho => hops o (by simp [ho]))
+        (derive_chainGood S hver hpub keep root e e1 op (hops op (by simp)) hg hd) h
+
+end built
+
+/-! ### Reload -/
+
+theorem reload_some (e e' : BiscuitMsg) (h : reload e = some e') : e' = normEnv e :=
+  decodeBiscuit_encode_some e e' h
+
+theorem derive_reload_ok (keep : Bool) (S : SigScheme) (e e' : BiscuitMsg)
+    (h : derive keep S e .reload = .ok e') : e' = normEnv e := by
+  simp only [derive] at h
+  cases hr : reload e with
+  | none => rw [hr] at h; cases h
+  | some e'' =>
+    rw [hr] at h
+    simp only [Except.ok.injEq] at h
+    subst h
+    exact reload_some e e'' hr
+
+/-! ### Revocation identifiers -/
+
+theorem revocationIds_eq_map (e : BiscuitMsg) :
+    revocationIds e = (e.authority :: e.blocks).map (·.signature) := rfl
+
+theorem revocationIds_normEnv (e : BiscuitMsg) : revocationIds (normEnv e) = revocationIds e := by
+  simp [revocationIds, normEnv, normSB, Function.comp_def]
+
+
+/-- How many identifiers a derivation step adds. -/
+def revBump : DeriveOp → Nat
+  | .append _ _ => 1
+  | _ => 0
+
+theorem derive_revids_aux (keep : Bool) (S : SigScheme) (e e' : BiscuitMsg) (op : DeriveOp)
+    (h : derive keep S e op = .ok e') :
+    revocationIds e <+: revocationIds e' ∧
+    (revocationIds e').length = (revocationIds e).length + revBump op := by
+  rcases op with ⟨block, rng⟩ | _ | _
+  · simp only [derive] at h
+    cases ha : appendEnvelopeWith keep S e block rng with
+    | error r => rw [ha] at h; cases h
+    | ok p =>
+      obtain ⟨e'', rng'⟩ := p
+      rw [ha] at h
+      simp only [Except.map, Except.ok.injEq] at h
+      subst h
+      obtain ⟨_, _, _, _, _, rfl⟩ := appendEnvelopeWith_ok keep S e block rng rng' e'' ha
+      refine ⟨?_, ?_⟩
+      · simp only [revocationIds, List.map_append]
+        rw [← List.cons_append]
+        exact List.prefix_append _ _
+      · simp [revocationIds, revBump]
+  · obtain ⟨_, _, _, rfl⟩ := sealEnvelopeWith_ok keep S e e' h
+    exact ⟨List.prefix_refl _, rfl⟩
+  · have he := derive_reload_ok keep S e e' h
+    subst he
+    rw [revocationIds_normEnv]
+    exact ⟨List.prefix_refl _, rfl⟩
 
 end Biscuit
